@@ -62,7 +62,7 @@ def requantize(model, state_dict):
     device = next(model.parameters()).device
     # the non-persistent buffers are not in the state_dict: keep them, as they would be lost on the meta device
     persistent = set(model.state_dict().keys())
-    buffers = {name: buffer for name, buffer in model.named_buffers() if name not in persistent}
+    buffers = {name: buffer for name, buffer in model.named_buffers(remove_duplicate=False) if name not in persistent}
 
     # empty the model params by moving to the meta device, then quantize
     model.to(torch_device("meta"))
